@@ -508,20 +508,55 @@ fn run_stage(eng: &Engine, stage: &str) -> bool {
     }
 }
 
+/// "blocks above 128 KiB are refused" also where the size is not written in any header: the
+/// regenerated size of a compressed block (literals + matches). Generator shared with C05.
+fn check_forbidden_block(o: &crate::props::c05::OverLong, ctx: &mut CaseCtx) -> CaseResult {
+    use ruzstd::decoding::FrameDecoder;
+    let spec = crate::props::c05::overlong_spec(o);
+    let out = crate::model::synth::synth(&spec, None, true);
+    let over = out.max_block_regen > 128 * 1024;
+    let mut dec = FrameDecoder::new();
+    let mut buf = vec![0u8; out.content.len() + 16];
+    let r = dec.decode_all(&out.bytes, &mut buf);
+    if over {
+        ensure!(r.is_err(), "forbidden_block_size_accepted", "a compressed block regenerating {} bytes (limit 131072) was decoded: {:?}", out.max_block_regen, r.as_ref().ok());
+        ctx.feat("block:regenerates_more_than_128KiB_refused");
+        ctx.feat_if(o.trailing > 0, "block:over_the_limit_only_with_literals_no_sequence_consumes");
+    } else {
+        match (crate::refz::decompress(&out.bytes, None, out.content.len() + 1), r) {
+            (Ok(d), Ok(n)) if d == out.content => ensure!(buf[..n] == out.content[..], "valid_block_wrong", "block regenerating {} bytes decoded to different data", out.max_block_regen),
+            (Ok(d), Err(e)) if d == out.content => fail!("legal_block_size_refused", "a block regenerating {} bytes (<= 131072) is refused: {e}", out.max_block_regen),
+            _ => {
+                ctx.feat("skipped:reference_rejects_for_other_reason");
+                return Ok(());
+            }
+        }
+        ctx.feat_if(out.max_block_regen > 130_000, "block:just_below_or_at_the_limit_accepted");
+    }
+    ctx.nontrivial = over || out.max_block_regen > 65_536;
+    ctx.set_hash_bytes(&[&out.bytes]);
+    Ok(())
+}
+
 pub fn run(eng: &Engine) {
-    eng.set_rule("exhaustive enumeration of finite sub-domains (each listed with its size); every enumerated value is a real, distinct case (counted by index, not hashed); sampled sub-domains are marked exhaustive=false");
+    eng.set_rule("exhaustive enumeration of finite sub-domains (each listed with its size); every enumerated value is a real, distinct case (counted by index, not hashed); sampled sub-domains are marked exhaustive=false; plus one generated stage (forbidden_block_sizes): synthesized frames with a compressed block whose regenerated size lies around / far above 128 KiB (reached through max-length matches, 20-bit literals, or literals no sequence consumes) - above the limit the decoder must refuse, at or below it decode correctly");
     eng.assume("tables and rules transcribed from RFC 8878 in the harness, cross-checked at start against the constant arrays in libzstd 1.5.7's source");
     eng.assume("reserved patterns (reserved descriptor bit, reserved mode bits) are not asserted");
     eng.assume("frame-header writer domain: matcher windows 1..=2^41 (larger windows are not representable by the writer's exponent-only descriptor)");
     selftest::code_tables(eng);
     for s in STAGES {
         if !run_stage(eng, s) {
-            break;
+            return;
         }
     }
+    let n = eng.tier.pick(3_000, 60_000);
+    eng.run_stage("forbidden_block_sizes", n, crate::props::c05::overlong_strategy, check_forbidden_block);
 }
 
 pub fn replay(eng: &Engine, stage: &str, case: &Value) -> CaseResult {
+    if stage == "forbidden_block_sizes" {
+        return eng.replay_value(stage, case, check_forbidden_block);
+    }
     let i = case["index"].as_u64().ok_or_else(|| Failure::new("machinery", "C14 case must carry an index"))?;
     let mut ctx = CaseCtx::default();
     let seed = case["seed"].as_u64().unwrap_or(eng.seed);
